@@ -93,7 +93,12 @@ func (u *Unsubscribe) Unpack(r io.Reader) error {
 		if err != nil {
 			return err
 		}
-		if !ValidTopicFilter(true, topicFilter) {
+		if u.Version == Version5 {
+			// check shared subscription syntax, as Subscribe.Unpack does
+			if !ValidV5Topic(topicFilter) {
+				return codes.ErrProtocol
+			}
+		} else if !ValidTopicFilter(true, topicFilter) {
 			return codes.ErrProtocol
 		}
 		u.Topics = append(u.Topics, string(topicFilter))
